@@ -312,8 +312,14 @@ func (f *frame) binop(op token.Token, a, b Term, opType, resType types.Type, pos
 				// uninterpreted function of them (sound: only arithmetic facts are lost); keeps the
 				// queries of the function linear
 				name := map[token.Token]string{token.MUL: "umul", token.QUO: "udiv", token.REM: "umod"}[op]
-				r := w(mk(SInt, name, a, b), true)
-				c.assumed["products and quotients of two symbolic operands are uninterpreted in functions marked `opt nonlinear=abstract` (abstraction: facts are lost, none invented)"] = true
+				r := mk(SInt, name, a, b)
+				if op == token.MUL {
+					r = w(r, true) // a product may wrap; an (uninterpreted) quotient or remainder is taken as it is
+				}
+				c.assumed["products and quotients of two symbolic operands are uninterpreted in functions marked `opt nonlinear=abstract` (abstraction: facts are lost, none invented), except for the floor-division facts b*(n/b) <= n < b*(n/b)+b (n >= 0), n <= b*(n/b) < n+b (n < 0) and n == b*(n/b) + n%b with the sign of n%b following n, for b > 0 (true of Go's truncated division)"] = true
+				c.decl("nonlinear axiom 1", `(assert (forall ((|q n ax| Int) (|q b ax| Int)) (! (=> (and (> |q b ax| 0) (>= |q n ax| 0)) (and (<= (umul |q b ax| (udiv |q n ax| |q b ax|)) |q n ax|) (< |q n ax| (+ (umul |q b ax| (udiv |q n ax| |q b ax|)) |q b ax|)))) :pattern ((umul |q b ax| (udiv |q n ax| |q b ax|))))))`)
+				c.decl("nonlinear axiom 2", `(assert (forall ((|q n ax| Int) (|q b ax| Int)) (! (=> (and (> |q b ax| 0) (< |q n ax| 0)) (and (<= |q n ax| (umul |q b ax| (udiv |q n ax| |q b ax|))) (< (umul |q b ax| (udiv |q n ax| |q b ax|)) (+ |q n ax| |q b ax|)))) :pattern ((umul |q b ax| (udiv |q n ax| |q b ax|))))))`)
+				c.decl("nonlinear axiom 3", `(assert (forall ((|q n ax| Int) (|q b ax| Int)) (! (=> (> |q b ax| 0) (and (= |q n ax| (+ (umul |q b ax| (udiv |q n ax| |q b ax|)) (umod |q n ax| |q b ax|))) (=> (>= |q n ax| 0) (and (<= 0 (umod |q n ax| |q b ax|)) (< (umod |q n ax| |q b ax|) |q b ax|))) (=> (< |q n ax| 0) (and (< (- |q b ax|) (umod |q n ax| |q b ax|)) (<= (umod |q n ax| |q b ax|) 0))))) :pattern ((umod |q n ax| |q b ax|)))))`)
 				return r
 			}
 			switch op {
